@@ -273,6 +273,45 @@ def _run_chunk(chunk):
     return out
 
 
+def _fresh_child(conn, chunk):
+    try:
+        conn.send(_run_chunk(chunk))
+    finally:
+        conn.close()
+
+
+def _pmap_fresh(ctx, chunks, ncpu):
+    """One forked process per chunk.  A process that ends without delivering (the solver aborts the
+    process when its memory cap is reached) yields ('died', (item, exitcode)) for each of its items
+    instead of hanging the pool."""
+    from multiprocessing.connection import wait
+
+    todo = list(reversed(chunks))
+    running = {}  # connection -> (process, chunk)
+    while todo or running:
+        while todo and len(running) < ncpu:
+            ch = todo.pop()
+            rd, wr = ctx.Pipe(duplex=False)
+            pr = ctx.Process(target=_fresh_child, args=(wr, ch), daemon=True)
+            pr.start()
+            wr.close()
+            running[rd] = (pr, ch)
+        for rd in wait(list(running)):
+            pr, ch = running.pop(rd)
+            try:
+                res = rd.recv()
+            except (EOFError, OSError):
+                res = None
+            rd.close()
+            pr.join()
+            if res is None:
+                for item in ch:
+                    yield ("died", (item, pr.exitcode))
+            else:
+                for r in res:
+                    yield r
+
+
 def pmap(fn, items, chunk=None, ncpu=None, fresh=False):
     """Map ``fn`` over ``items`` in forked workers; yields ('ok', r) / ('crash', msg).
     ``fresh``: one new worker process per chunk (solver state never carries over
@@ -292,7 +331,10 @@ def pmap(fn, items, chunk=None, ncpu=None, fresh=False):
     chunks = [items[i : i + chunk] for i in range(0, len(items), chunk)]
     _WORK_FN = fn
     ctx = mp.get_context("fork")
-    with ctx.Pool(max(1, ncpu), maxtasksperchild=1 if fresh else None) as pool:
+    if fresh:
+        yield from _pmap_fresh(ctx, chunks, max(1, ncpu))
+        return
+    with ctx.Pool(max(1, ncpu)) as pool:
         for res in pool.imap_unordered(_run_chunk, chunks):
             for r in res:
                 yield r
